@@ -33,12 +33,33 @@ def family(tier):
     else:
         combos = [(v, T, r, "key", 1) for v in VAR for T in (2, 4) for r in (0, 2)] + \
                  [(v, 3, 1, "chord", 1) for v in VAR] + [(v, 3, 1, "key", 2) for v in VAR] + \
-                 [("press", 4, 5, "key", 1), ("release", 4, 5, "key", 1)]
+                 [("press", 4, 5, "key", 1), ("release", 4, 5, "key", 1), ("release", 5, 1, "key", 1), ("release-pcancel", 5, 1, "key", 1)]
     for (v, T, r, kind, nos) in combos:
         keys = ("a", "b", "c")
         name = "%s_T%d_r%d_%s_n%d" % (v.replace("-", ""), T, r, kind, nos)
         F.append((name, make(v, T, r, kind, nos, keys)))
     return F
+
+
+def directed_scripts(params, keys):
+    """Multi-step scenarios at a realistic timeout (not reachable within the small timeouts of the exhaustive instances)."""
+    T = params["T"]
+    os_ = params["oskeys"][0]["c"]
+    x, y = [o["c"] for o in params["others"]][:2]
+    tap = lambda k, g=1: [["d", k], ["t", g], ["u", k], ["t", g]]
+    S = []
+    # a key pressed during a one-shot that then EXPIRES stays held; a later one-shot must not end on its release
+    S.append(tap(os_) + [["d", x], ["t", T + 10]] + tap(os_) + [["u", x], ["t", 1]] + tap(y) + [["t", 2 * T]])
+    # a one-shot key tapped, pressed again and held acts as the plain key while held
+    S.append(tap(os_) + [["d", os_], ["t", 2]] + tap(x) + tap(y) + [["t", 3], ["u", os_], ["t", 2 * T]])
+    S.append(tap(os_) + [["t", max(T - 8, 0)]] + tap(x) + tap(y) + [["t", 2 * T]])
+    S.append(tap(os_) + tap(os_) + tap(x) + tap(y) + [["t", 2 * T]])
+    # the release of a key pressed BEFORE the activation does not end a release-variant one-shot
+    S.append([["d", x], ["t", 3]] + tap(os_) + [["u", x], ["t", 1]] + tap(y) + [["t", 2 * T]])
+    S.append(tap(os_) + [["d", x], ["t", 1], ["d", y], ["t", 1], ["u", x], ["t", 1], ["u", y], ["t", 1]] + tap(x) + [["t", 2 * T]])
+    S.append(tap(os_) + [["t", T + 3]] + tap(x) + [["t", 2 * T]])
+    S.append(tap(os_) + [["d", x], ["t", T + 10], ["u", x], ["t", 2]] + tap(os_) + tap(y) + tap(x) + [["t", 2 * T]])
+    return S
 
 
 def run(tier, seed):
@@ -77,6 +98,16 @@ def run(tier, seed):
         burst += [["d", keys[-1]], ["t", 2], ["u", keys[-1]], ["t", 100]]
         scripts.append(burst)
         jobs_random.append({"cfg": kbd, "params": params, "tag": "r:" + name, "scripts": scripts})
+    # realistic timeouts (recorded traces only): directed multi-step scenarios + random schedules, every variant
+    for v in VAR:
+        for kind in ("key", "chord"):
+            desc, params = make(v, 40, 1, kind, 1)
+            kbd = cfgdesc.render_kbd(desc)
+            keys = [cfgdesc.code(k) for k in desc["keys"]]
+            scripts = directed_scripts(params, keys)
+            scripts += [rand_history(rng, keys, rng.randint(6, 40), [0, 1, 2, 5, 39, 40, 41, 80], tail=120)
+                        for _ in range(20 if tier == "quick" else 200)]
+            jobs_random.append({"cfg": kbd, "params": params, "tag": "T40:%s:%s" % (v, kind), "scripts": scripts})
     for label, jobs in (("witness", witness_jobs), ("random", jobs_random)):
         if not jobs:
             continue
